@@ -119,6 +119,17 @@ def body_unit(unit):
                     if extra:
                         bad('abort-inconsistent', body, 'raise after %d' % k,
                             'check() reports %r' % (extra[:3],))
+                    # a later, unrelated committed write must not disturb what
+                    # the rollback restored
+                    w.cache.set('zz-later', 1)
+                    w.cache.delete('zz-later')
+                    later = full_state(w.dir)
+                    if later != pre and post == pre:
+                        bad('abort-damage-surfaces-later', body,
+                            'raise after %d' % k,
+                            'after a later committed write the restored '
+                            'contents changed: %r -> %r'
+                            % (pre_rows, Snapshot(w.dir).contents()))
                 elif problems:
                     bad('commit-wrong', body, 'commit',
                         '; '.join(p[1] for p in problems)[:400])
@@ -310,6 +321,8 @@ class FanoutBlockScenario(ObjScenario):
                 with fc.transact():
                     for b in op[1]:
                         out.append(self.do(fc, b))
+                    if op[2]:
+                        raise BlockAbort()
                 return tuple(out)
             return call(run_block)
         if op[0] == 'set':
@@ -325,6 +338,8 @@ class FanoutBlockScenario(ObjScenario):
 
     def apply(self, spec, op):
         if op[0] == 'block':
+            if op[2]:
+                return Raises('BlockAbort')     # no effect
             return tuple(self.apply(spec, b) for b in op[1])
         if op[0] == 'set':
             spec[op[1]] = val(op[2])
@@ -387,8 +402,9 @@ def work(unit):
     if kind == 'containers':
         return container_unit(unit)
     if kind == 'fanout-sched':
-        _, programs, bound, cap = unit
-        part = sched.explore(lambda: FanoutBlockScenario(programs, [], 'own'),
+        _, programs, bound, cap = unit[:4]
+        mode = unit[4] if len(unit) > 4 else 'own'
+        part = sched.explore(lambda: FanoutBlockScenario(programs, [], mode),
                              bound=bound, por=True, time_cap=cap)
         part['label'] = 'sched/fanout'
         return part
@@ -434,6 +450,10 @@ def main(tier, seed):
     units.append(('fanout-sched', [[fb], [fb2]], None, cap))
     units.append(('fanout-sched', [[fb], [('get', 'a'), ('get', 'b')]],
                   3 if tier == 'quick' else None, cap))
+    fab = ('block', (('set', 'b1', 'one'), ('set', 'b2', BIG)), True)
+    units.append(('fanout-sched', [[fb], [fab]], 2, cap, 'shared'))
+    units.append(('fanout-sched', [[fab], [('get', 'b1'), ('get', 'b2')]],
+                  2, cap, 'shared'))
     units.append(('fanout-sched', [[('block', (('incr', 'n'), ('incr', 'm')),
                                      None)],
                                    [('block', (('incr', 'm'), ('incr', 'n')),
